@@ -107,6 +107,7 @@ use std::ffi::{OsStr, OsString};
 use std::future::Future;
 use std::iter;
 use std::os::unix::io::RawFd;
+use std::panic;
 use std::pin::Pin;
 use std::process;
 use std::rc::Rc;
@@ -670,7 +671,11 @@ impl JobServerHandle {
                     log_err!("close read end of pipe: {}\n", e);
                     process::exit(EXIT_JOB_FAILURE);
                 }
-                let rv = job_func();
+                // A panic must not unwind out of here: this process holds a
+                // copy of the parent's job server, and dropping it would hand
+                // back tokens (and settle debts) that belong to the parent.
+                let rv = panic::catch_unwind(panic::AssertUnwindSafe(job_func))
+                    .unwrap_or(EXIT_JOB_FAILURE);
                 debug_jobserver!("exit: {}", rv);
                 process::exit(rv);
             }
